@@ -43,6 +43,8 @@ def cases(tier, seed):
     for who in ('requestor', 'acceptor'):
         for when in ('before', 'between'):
             yield {'kind': 'release', 'who': who, 'when': when, 'bound': bound}
+    yield {'kind': 'release', 'who': 'requestor', 'when': 'between', 'bound': 0, 'in_handler': True}
+    yield {'kind': 'exception-exit', 'when': 'between', 'bound': 0, 'in_handler': True}
     # the requestor releases while the acceptor still owes it a response (request and A-RELEASE-RQ back to back)
     yield {'kind': 'release', 'who': 'requestor', 'when': 'during', 'bound': bound, 'count_all': True}
     for when in ('before', 'between'):
@@ -112,6 +114,16 @@ def make_scenario(case, obs):
         cae = applicationentity.ClientAE('SCU', None, 16384).add_scu(sopclass.verification_scu)
 
         def client():
+            if case.get('in_handler'):
+                # the association is used from inside an exception handler (a retry after an earlier failure): leaving it
+                # normally is still leaving it normally
+                try:
+                    raise RuntimeError('earlier failure of the application')
+                except RuntimeError:
+                    return client_body()
+            return client_body()
+
+        def client_body():
             remote = {'aet': 'SCP', 'address': 'srv', 'port': 104}
             try:
                 with cae.request_association(remote) as asce:
@@ -334,7 +346,7 @@ def run_case(case):
     for s, m in viol:
         dedup.setdefault(s, m)
     return {'viol': list(dedup.items()), 'case': dict(case, schedule=first_bad[0]) if viol else None,
-            'key': (case['kind'], str(case.get('triple')), case.get('who'), case.get('when'), case.get('reason'), case['bound']),
+            'key': (case['kind'], str(case.get('triple')), case.get('who'), case.get('when'), case.get('reason'), case['bound'], case.get('in_handler')),
             'count': {'schedules': stats['executions'], 'decisions': stats['decisions'], 'capped': int(stats['capped'])},
             'outcomes': len(outcomes),
             'sample': dict(case, schedules=stats['executions'], points=stats['max_points']) if case['bound'] else None}
